@@ -253,6 +253,7 @@ S0 = {"slide": 0}
 FULL = [
     dict(op="add_textbox", **S0), dict(op="add_shape", kind="RECTANGLE", **S0), dict(op="add_picture", img="A", via="stream", **S0),
     dict(op="add_connector", **S0), dict(op="add_table", **S0), dict(op="add_chart", kind="bar", **S0),
+    dict(op="add_textbox", slide=1), dict(op="add_picture", img="B", via="stream", slide=1),
     dict(op="add_movie", **S0),
     dict(op="add_group", member="none", **S0), dict(op="add_freeform", **S0),
     dict(op="add_in_group", depth=1, kind="shape"), dict(op="add_in_group", depth=2, kind="textbox"),
